@@ -358,3 +358,21 @@ pub(crate) fn push_free(fl: &mut Freelist, p: u64) {
 pub(crate) fn push_pending(fl: &mut Freelist, tx: u64, pages: Vec<u64>) {
     fl.pending_pages.jv_push_back(tx, pages);
 }
+
+// ---- call-site recorder: stands in for Freelist::release in harnesses that decide *with which bound*
+//      a caller releases (the effect of release itself is decided by fl_release_step)
+pub(crate) static mut RELEASE_ARGS: [u64; 4] = [0; 4];
+pub(crate) static mut RELEASE_CALLS: usize = 0;
+pub(crate) fn release_recorder(_fl: &mut Freelist, tx_id: u64) {
+    unsafe {
+        assert!(RELEASE_CALLS < 4);
+        RELEASE_ARGS[RELEASE_CALLS] = tx_id;
+        RELEASE_CALLS += 1;
+    }
+}
+pub(crate) fn release_calls() -> usize {
+    unsafe { RELEASE_CALLS }
+}
+pub(crate) fn release_arg(i: usize) -> u64 {
+    unsafe { RELEASE_ARGS[i] }
+}
